@@ -212,7 +212,9 @@ def run_hpd(c):
                     tag = "%s,%s,rhs=%s" % (spec, "complex" if cplx else "real", rhs)
                     maxiter = None
                     if c["maxmode"] != "none":
-                        r0 = _eager(mat, flat, jv, x0e, cfg, None)
+                        # the convergence iteration of this criterion: first iteration at which the eager solver
+                        # (miniter=0, no iteration limit) finds it satisfied
+                        r0 = _eager(mat, flat, jv, x0e, dict(cfg, miniter=0), None)
                         if "raised" in r0 or r0["info"] != 0:
                             V("hpd|eager|no-convergence-with-default-maxiter", "%s %s: %s" % (tag, _cfgstr(cfg, None), r0))
                             continue
